@@ -31,7 +31,7 @@ NUM_DTYPES = {
 }
 NARROWER = {"int16": "int8", "int32": "int16", "int64": "int32", "uint16": "uint8", "uint32": "uint16",
             "uint64": "uint32", "float32": "float16", "float64": "float32"}
-PRESENTATIONS = ["C", "F", "strided", "big", "little", "narrow", "npscalar", "pylist"]
+PRESENTATIONS = ["C", "F", "strided", "big", "little", "narrow", "npscalar", "pylist", "reused"]
 
 
 def battery(dtype: str, n: int, rng: np.random.Generator) -> np.ndarray:
@@ -134,6 +134,7 @@ def run_cells(task: dict) -> dict:
                     src_dtype = NARROWER.get(dtype) if how == "narrow" else dtype
                     if src_dtype is None:
                         continue
+                    reuse = {}
                     for variant in range(task["variants"]):
                         vals, exp = {}, []
                         ok = True
@@ -150,11 +151,18 @@ def run_cells(task: dict) -> dict:
                                 # a Python list goes through Python floats (double): NaN payloads combined with a
                                 # widening cast are outside the statement
                                 v = np.where(np.isnan(v), v.dtype.type(1.5), v)
-                            vals[f"a{i}"] = present(v, s, how_i, dtype)
+                            if how == "reused":
+                                # the caller keeps ONE array per attribute and overwrites it in place between writes
+                                if i not in reuse:
+                                    reuse[i] = np.zeros(s, dtype=dtype)
+                                reuse[i][...] = v.reshape(s)
+                                vals[f"a{i}"] = reuse[i]
+                            else:
+                                vals[f"a{i}"] = present(v, s, how_i, dtype)
                             # the value that is written is the value as presented (a Python list has already gone
                             # through Python floats / numpy's dtype inference before sedpack sees it)
                             with np.errstate(all="ignore"):
-                                exp.append(np.asarray(vals[f"a{i}"]).reshape(s).astype(dtype))
+                                exp.append(np.array(vals[f"a{i}"], copy=True).reshape(s).astype(dtype))
                         try:
                             f.write_example(values=vals, split="train")
                             written.append((how, rel, exp))
